@@ -1229,8 +1229,14 @@ class CausalGraph(HasIdentifier, HasMetadata, CanDictSerialize, CanDictDeseriali
         edge = self.get_edge(source=source, destination=destination)
         if edge.get_edge_type() != new_edge_type:
             meta = edge.meta
-            self.remove_edge(source=source, destination=destination, edge_type=edge.get_edge_type())
-            self.add_edge(source=source, destination=destination, edge_type=new_edge_type, meta=meta)
+            old_edge_type = edge.get_edge_type()
+            self.remove_edge(source=source, destination=destination, edge_type=old_edge_type)
+            try:
+                self.add_edge(source=source, destination=destination, edge_type=new_edge_type, meta=meta)
+            except Exception:
+                # restore the original edge if the edge with the new type is rejected (e.g. it closes a cycle)
+                self.add_edge(source=source, destination=destination, edge_type=old_edge_type, meta=meta, validate=False)
+                raise
 
     @reset_cached_attributes_decorator
     def add_edge(
